@@ -561,7 +561,7 @@ func c08Cases(thorough bool) []c08Case {
 
 func runC08(c *Ctx) {
 	r := c.Run
-	r.Rule("receive: protocol{HTTP unary json/proto/HttpBody, HTTP stream json/proto, gRPC (+json), gRPC-web, gRPC-web-text, WebSocket} × gzip{off,on (Content-Encoding / per-message grpc-encoding, highly compressible payload)} × limit{32,100,1000,default 4MiB; thorough: 17 limits incl. 127/128/129, 16383/16384/16385, 2^16, 2^20} × encoded size{L-3..L+3,2L,2L+1,64KiB; thorough: L-6..L+6, L/2, 3L, 10L} × {alone, after a small message} × WebSocket messages in {1,2,3,5} frames × {one big field, a field boundary exactly at the limit with more fields following}; send: protocol × (send limit, receive limit) pairs with S<L, S>L and defaults × reply size around S; bogus length prefixes {L+1,2^31-1,2^31,2^32-1,2^32,2^63-1,2^63,2^64-1} with a 3-byte body; distinct = (kind, protocol, gzip, limit, size class, outcome)")
+	r.Rule("receive: protocol{HTTP unary json/proto/HttpBody, HTTP stream json/proto, gRPC (+json), gRPC-web, gRPC-web-text, WebSocket} × gzip{off,on (Content-Encoding / per-message grpc-encoding, highly compressible payload)} × limit{32,100,1000,default 4MiB; thorough: 17 limits incl. 127/128/129, 16383/16384/16385, 2^16, 2^20} × encoded size{L-3..L+3,2L,2L+1,64KiB; thorough: L-6..L+6, L/2, 3L, 10L} × {alone, after a small message} × WebSocket messages in {1,2,3,5} frames × {one big field, a field boundary exactly at the limit with more fields following}; send: protocol × (send limit, receive limit) pairs with S<L, S>L and defaults × reply size around S; streamed HttpBody uploads: limit{4,32,101,203,1009} × body size{0,1,L-1,L,L+1,L+37,2L,2L+1,3L+5} × end of body{EOF alone, EOF with the last bytes} × read size{all,1,7,64,L,L+1}: every chunk within the limit, every byte delivered; bogus length prefixes {L+1,2^31-1,2^31,2^32-1,2^32,2^63-1,2^63,2^64-1} with a 3-byte body; distinct = (kind, protocol, gzip, limit, size class, outcome)")
 	r.Assume("sizes are measured in the codec used on the wire, after decompression; the message carries one string field so the size is an exact function of its length", "what happens to replies above the send limit is not part of the property")
 	cases := c08Cases(c.Thorough())
 	envs := make([]*c08Env, explore.Workers)
@@ -586,9 +586,50 @@ func runC08(c *Ctx) {
 			r.Sample(*tc)
 		}
 	})
+	c08UploadChunks(c)
+}
+
+// c08UploadChunks: a streamed google.api.HttpBody upload is handed to the handler in messages
+// whose data never exceeds the receive limit, whatever the size of the body, the way the body
+// is read and the way its end is reported (EOF alone or together with the last bytes - what
+// net/http does for Content-Length bodies); nothing is refused and no byte is lost.
+func c08UploadChunks(c *Ctx) {
+	r := c.Run
+	e := newC06Env()
+	for _, L := range []int{4, 32, 101, 203, 1009} {
+		for _, n := range []int{0, 1, L - 1, L, L + 1, L + 37, 2 * L, 2*L + 1, 3*L + 5} {
+			for _, eofWith := range []bool{false, true} {
+				for _, mr := range []int{0, 1, 7, 64, L, L + 1} {
+					tc := c06Case{Transport: "http-body", Shape: "bidi", In: []int{n}, Out: []int{3}, Limit: L, EOFWith: eofWith, MaxRead: mr, Truncate: -1}
+					res := e.execBody(&tc)
+					r.Eval(1)
+					if res.oracle != "" {
+						r.Outcome("FAIL:upload-" + res.oracle)
+						r.Violation(report.Violation{Oracle: "upload-" + res.oracle, Key: fmt.Sprintf("upload-%s L=%d size=%d eofwith=%v maxread=%d", res.oracle, L, n, eofWith, mr), Case: tc, Note: res.note})
+						continue
+					}
+					r.Outcome("recv:upload-chunked-within-limit")
+					r.Distinct(fmt.Sprintf("upload|%d|%d|%v", L, n, eofWith))
+				}
+			}
+		}
+	}
 }
 
 func replayC08(c *Ctx, v report.Violation) {
+	if strings.HasPrefix(v.Oracle, "upload-") {
+		var tc c06Case
+		if !remarshal(v.Case, &tc) {
+			fmt.Println("replay: cannot decode case")
+			return
+		}
+		res := newC06Env().execBody(&tc)
+		fmt.Printf("replay: %+v -> oracle=%q %s\n", tc, res.oracle, res.note)
+		if res.oracle != "" {
+			c.Run.Violation(report.Violation{Oracle: "upload-" + res.oracle, Key: v.Key, Case: tc, Note: res.note})
+		}
+		return
+	}
 	var tc c08Case
 	if !remarshal(v.Case, &tc) {
 		fmt.Println("replay: cannot decode case")
